@@ -67,8 +67,14 @@ func (t *Tax) Normalize(normalizers tax.Normalizers) {
 
 // ValidateWithContext ensures the tax details look valid.
 func (t *Tax) ValidateWithContext(ctx context.Context) error {
+	// the category of the included tax must be one of the document's regime,
+	// just like the category of every line tax.
+	var inCategories []validation.Rule
+	if r := tax.RegimeDefFromContext(ctx); r != nil {
+		inCategories = append(inCategories, r.InCategories())
+	}
 	return tax.ValidateStructWithContext(ctx, t,
-		validation.Field(&t.PricesInclude),
+		validation.Field(&t.PricesInclude, inCategories...),
 		validation.Field(&t.Rounding,
 			cbc.InKeyDefs(tax.RoundingRules),
 		),
